@@ -142,6 +142,46 @@ func scripts() map[string]Script {
 				blk(6*time.Second, fee),
 			}
 		},
+		// drain-exact: after one 10% take-rate deduction three equal positions are worth exactly 900000 each while
+		// the share/token ratio is 10/9 (not representable with 18 digits): every exit leaves validator-share
+		// dust behind (V1 ends without any delegation, V3 keeps another asset), the last exit drains the asset's
+		// staked total to exactly zero and every share record of it has to be reset; then a new cycle starts
+		"drain-exact": func(g *Gen, c *Config) []Step {
+			c.Assets = []AssetSpec{
+				{Denom: "aaa", Weight: "0.5", WMin: "0", WMax: "10", TakeRate: "0.1", StartDelay: -int64(time.Hour), Mag: "1000000000000"},
+				{Denom: "bbb", Weight: "1", WMin: "0", WMax: "10", TakeRate: "0", StartDelay: -int64(time.Hour), Mag: "1000000"},
+			}
+			c.Fund = "1000000000000000"
+			c.UnbondingNs = int64(time.Hour)
+			c.TakeIntervalNs = int64(time.Minute)
+			fee := "2000000stake"
+			upd := &GovSpec{Signer: "auth", Denom: "aaa", Weight: "0.5", WMin: "0", WMax: "10", Take: "0", Rate: "1"}
+			return []Step{
+				{K: "delegate", A: 0, V: 1, Den: "aaa", Amt: "1000000000000"},
+				{K: "delegate", A: 1, V: 2, Den: "aaa", Amt: "1000000000000"},
+				{K: "delegate", A: 2, V: 3, Den: "aaa", Amt: "1000000000000"},
+				{K: "delegate", A: 3, V: 2, Den: "bbb", Amt: "823529"},
+				{K: "delegate", A: 4, V: 3, Den: "bbb", Amt: "1234567"},
+				blk(61*time.Second, fee),
+				blk(6*time.Second, fee), // the end-of-block at T0+61s deducts 10%
+				{K: "gov_update", Gov: upd},
+				blk(6*time.Second, fee),
+				{K: "undelegate", A: 0, V: 1, Den: "aaa", Amt: "bal"},
+				{K: "undelegate", A: 2, V: 3, Den: "aaa", Amt: "bal"},
+				blk(6*time.Second, fee),
+				{K: "undelegate", A: 1, V: 2, Den: "aaa", Amt: "bal"},
+				blk(6*time.Second, fee),
+				{K: "delegate", A: 0, V: 2, Den: "aaa", Amt: "500"},
+				{K: "delegate", A: 1, V: 1, Den: "aaa", Amt: "7"},
+				blk(6*time.Second, fee),
+			}
+		},
+		// drain-slashed: zero-weight assets (no module stake, validator tokens stay whole millions so that the
+		// effective slash fractions are exactly the configured ones), V1 slashed 50% for downtime and V2 75% for
+		// a double sign: one validator share is then worth exactly 3 tokens, positions are worth whole tokens,
+		// each complete exit leaves validator-share dust that survives, and the last exit drains the asset
+		"drain-slashed": drainSlashed(false),
+		"drain-slashed-2": drainSlashed(true),
 		// a native delegator removes the whole delegation, followed by quiet blocks
 		"native-full-exit": func(g *Gen, c *Config) []Step {
 			fee := "2000000stake"
@@ -172,7 +212,7 @@ func checkDefs() map[string]*CheckDef {
 		},
 		{
 			Prop: "C03",
-			Scripts: []string{"drain-refill"},
+			Scripts: []string{"drain-refill", "drain-exact", "drain-slashed", "drain-slashed-2"},
 			ProbeEvery: 3,
 			Runs: []ProfRun{{"core", 64, 1200}, {"extreme", 48, 900}},
 			Mons: func(r *Runner) []Monitor { return []Monitor{NewMonC03(r)} },
@@ -317,7 +357,7 @@ func valueDefs() []*CheckDef {
 		},
 		{
 			Prop: "C04",
-			Scripts: []string{"drain-refill"},
+			Scripts: []string{"drain-refill", "drain-exact", "drain-slashed", "drain-slashed-2"},
 			Runs: []ProfRun{{"core", 64, 1200}, {"queue", 32, 600}, {"extreme", 32, 600}},
 			Mons: func(r *Runner) []Monitor { return []Monitor{NewMonC04(r)} },
 			ProbeEvery: 2,
@@ -334,5 +374,46 @@ func valueDefs() []*CheckDef {
 			Rule: "after every k-th step of seeded histories (slashes of every fraction up to 100%, take-rate deductions, jailed/unbonded validators, warm-up) probe transactions on discarded branches: delegate 1 unit and a large amount of every asset to every validator, and for every position with a positive reported balance claim then undelegate the full reported balance; each must succeed; failures are matched against the recorded mechanisms (zero-value-validator, pool-short, precision-18dec) and are violations otherwise; a situation class = (slashes so far, jailed validators, number of positions)",
 			Assumptions: commonAssumptions,
 		},
+	}
+}
+
+func drainSlashed(second bool) Script {
+	return func(g *Gen, c *Config) []Step {
+		c.NVals = 3
+		c.ValStake = []int64{3_000_000, 4_000_000, 5_000_000}
+		c.Assets = []AssetSpec{
+			{Denom: "aaa", Weight: "0", WMin: "0", WMax: "10", TakeRate: "0", StartDelay: -int64(time.Hour), Mag: "1000000"},
+			{Denom: "bbb", Weight: "0", WMin: "0", WMax: "10", TakeRate: "0", StartDelay: -int64(time.Hour), Mag: "1000000"},
+		}
+		c.Fund = "1000000000"
+		c.UnbondingNs = int64(time.Hour)
+		c.SlashDowntime = "0.5"
+		c.SlashDouble = "0.75"
+		c.SignedWindow = 4
+		fee := "2000000stake"
+		st := []Step{
+			{K: "delegate", A: 0, V: 1, Den: "aaa", Amt: "1000000"},
+			{K: "delegate", A: 1, V: 2, Den: "aaa", Amt: "2000000"},
+			{K: "delegate", A: 4, V: 3, Den: "bbb", Amt: "500000"},
+		}
+		if second {
+			st = append(st, Step{K: "delegate", A: 3, V: 1, Den: "bbb", Amt: "823529"})
+		}
+		st = append(st, blk(6*time.Second, fee), blk(6*time.Second, fee), blk(6*time.Second, fee), blk(6*time.Second, fee), blk(6*time.Second, fee))
+		for i := 0; i < 6; i++ {
+			st = append(st, Step{K: "block", Block: &BlockSpec{DtNs: int64(6 * time.Second), Fees: fee, Absent: []int{1}}})
+		}
+		st = append(st,
+			Step{K: "block", Block: &BlockSpec{DtNs: int64(6 * time.Second), Fees: fee, Evidence: []Evidence{{Val: 2, HeightBack: 1}}}},
+			blk(6*time.Second, fee),
+			Step{K: "undelegate", A: 0, V: 1, Den: "aaa", Amt: "bal"},
+			blk(6*time.Second, fee),
+			Step{K: "undelegate", A: 1, V: 2, Den: "aaa", Amt: "bal"},
+			blk(6*time.Second, fee),
+			Step{K: "delegate", A: 1, V: 2, Den: "aaa", Amt: "500"},
+			Step{K: "delegate", A: 0, V: 3, Den: "aaa", Amt: "7"},
+			blk(6*time.Second, fee),
+		)
+		return st
 	}
 }
